@@ -12,6 +12,7 @@ from props.c01 import grid_program
 PROPERTY = "C03"
 RULE = ("Generated test programs as in C01 with emphasis on ordered pairs/triples of (exception kind, stage), subclasses "
         "of SkipTest / AssertionError / _ExpectedFailure / _UnexpectedSuccess, expectThat mismatches and force_failure, "
+        "user handlers for the skip class in programs that raise several things, "
         "plus single-exception programs with user handlers inserted into exception_handlers at generated positions "
         "(before run() or during setUp); run against the extended recorder and a real testtools.TestResult. Oracle "
         "from the statement: success <=> the reference interpreter says nothing raised; exactly one exception => the "
@@ -20,7 +21,8 @@ RULE = ("Generated test programs as in C01 with emphasis on ordered pairs/triple
         "exceptions of different classes, or a user handler consulted; distinct = distinct canonical program.")
 ASSUMPTIONS = [
     "which of several failures/errors is reported is not asserted",
-    "user-mapped exception classes are only generated in single-exception programs",
+    "user-mapped exception classes are only generated in single-exception programs; programs raising several things "
+    "get at most a user handler for the skip class (which cannot claim a failure or an error)",
 ]
 
 PROG = st.one_of(P.programs(multi=True, expect=True, force=True, cleanup_depth=2, p_raise=6, extras=True, skip_handlers=True),
